@@ -34,17 +34,4 @@ def DisconnectSpec (c : Ctx) : Prop :=
     ∃ s', disconnectBlock c s b.height = .ok s' ∧ Inv c s' chain ∧
       (∀ ws, readyWallets s' ws = readyWallets s ws)
 
-/-- owned coinbase outputs of the block are not staking / binding deposits.
-    (Go's Rollback removes credit, unspent entry and amount of a rolled-back coinbase output but NOT its
-    deposit-history record: a staking/binding coinbase output to a wallet would leave a stale record —
-    invisible to GetStakingHistory/GetBindingHistory, which skip records without credit. The rollback
-    theorems therefore assume such outputs do not occur.) -/
-def CbPlainBlock (own : Own) (b : Block) : Prop :=
-  ∀ t ∈ b.txs, t.cb = true → ∀ o ∈ t.outs, (ownerOf own o).isSome = true → isDeposit o.cls = false
-
-instance (own : Own) (b : Block) : Decidable (CbPlainBlock own b) := by unfold CbPlainBlock; infer_instance
-
-/-- the block files hold no block with an owned staking / binding coinbase output -/
-def KnownCbPlain (c : Ctx) : Prop := ∀ id x, AMap.get c.node.known id = some x → CbPlainBlock c.own x
-
 end MW.Lemmas.Ledger
